@@ -3,6 +3,14 @@
 mod util;
 #[path = "../c19_alloc.rs"]
 mod c19_alloc;
+#[path = "../evalsess.rs"]
+mod evalsess;
+#[path = "../runner.rs"]
+mod runner;
+#[path = "../dump.rs"]
+mod dump;
+#[path = "../gen_arith.rs"]
+mod gen_arith;
 
 fn main() {
     let args: Vec<String> = std::env::args().collect();
@@ -14,6 +22,16 @@ fn main() {
     let rc = match args[1].as_str() {
         "c19" => c19_alloc::run(&opts),
         "c19-replay" => c19_alloc::replay(&opts),
+        "dump" => dump::run(&opts),
+        "eval-worker" => evalsess::worker(),
+        "eval-run" => runner::run(&opts),
+        "gen-c01" => gen_arith::run(&opts),
+        "encode" => {
+            // encode plain-text query lines (stdin) as request lines
+            use std::io::BufRead;
+            for l in std::io::stdin().lock().lines() { println!("{}", evalsess::req_line(&l.unwrap())); }
+            0
+        }
         other => {
             eprintln!("unknown subcommand {}", other);
             2
